@@ -25,7 +25,7 @@ type c11id struct {
 	toks []int
 	at   []time.Time
 	ex   []time.Duration // Expiration in force when the event was accepted (a group's expiry uses its first event's)
-	cuts map[int]bool // index c: tokens before c may legitimately have been discarded
+	cuts map[int]bool    // index c: tokens before c may legitimately have been discarded
 }
 
 type C11Summary struct {
